@@ -163,6 +163,12 @@ quotient_out_of_range (i128 A, i128 B)
   return B == -1 && A > ((i128) 1 << 63);
 }
 
+static inline bool
+div_bias_region (i128 A, i128 B)
+{
+  return (A < 0) != (B < 0) && A != 0 && mag (A) + mag (B) - 1 > (u128) HI;
+}
+
 template <int CLS> static inline void
 h_div ()
 {
@@ -177,6 +183,13 @@ h_div ()
       vp_assert (threw, "c08_div: division by zero is an error");
       return;
     }
+#ifdef VP_KF_div_bias
+  // known finding div_bias (known-findings.txt): for operands of different sign operator/ biases
+  // the dividend by |b| - 1 and reports an overflow when |a| + |b| - 1 >= 2^64, although the
+  // quotient is representable (pinned by libzwerg/test-int.cc: UINT64_MAX / -2).  The region is
+  // excluded here so that any OTHER violation is still reported; c08_div_kf_bias confirms it.
+  vp_assume (!div_bias_region (A, B));
+#endif
   vp_assert (threw == quotient_out_of_range (A, B), "c08_div: error iff floor quotient out of range");
   if (!threw)
     vp_assert (is_floor_quotient (A, B, den (r)), "c08_div: floor quotient");
@@ -223,3 +236,14 @@ VP_HARNESS (c08_div_smallQ) { h_div<SMALL_Q> (); }
 VP_HARNESS (c08_mod_any) { h_mod<ANY> (); }
 VP_HARNESS (c08_mod_smallB) { h_mod<SMALL_B> (); }
 VP_HARNESS (c08_mod_smallQ) { h_mod<SMALL_Q> (); }
+
+// confirms that the known finding div_bias is still present: in its region an overflow is reported
+VP_HARNESS (c08_div_kf_bias)
+{
+  mpz_class a = nd_mpz (), b = nd_mpz ();
+  i128 A = den (a), B = den (b);
+  vp_assume (B != 0 && div_bias_region (A, B) && !quotient_out_of_range (A, B));
+  bool threw = false;
+  try { mpz_class r = a / b; (void) r; } catch (std::domain_error &) { threw = true; }
+  vp_assert (threw, "KF div_bias: spurious overflow still reported in the known region");
+}
